@@ -154,7 +154,11 @@ def reconcileErs (rs : ERS) (st : ErsStore) (released : String → Bool) (affini
         let start := rollingUpdateStartTime rs.status now
         let removes := if now - start < 5 * minute then (canaryLabelled d.name rs st).map (·.name) else []
         some (r, [], removes, false)
-      | .err _ => some ({}, [], [], true)
+      | .err _ =>
+        -- early error return of ManageDeployment (a rolling-update parameter that does not parse): no
+        -- status was computed; Reconcile keeps the current one, with the conditions already updated,
+        -- and reports the error in it (F15 repair: it used to dereference the nil status)
+        some ({ newStatus := some { sp.newStatus with conds := rollingConds sp now } }, [], [], true)
       | .panic => none
     else if role == "canary" then
       match manageCanaryStatus sp now with
